@@ -366,7 +366,10 @@ func pngBytes(c choice.Chooser) []byte {
 		}
 	}
 	var buf bytes.Buffer
-	png.Encode(&buf, img)
+	// uploads come from any encoder: not necessarily the bytes Go's default
+	// encoder would produce for these pixels
+	enc := png.Encoder{CompressionLevel: []png.CompressionLevel{png.DefaultCompression, png.NoCompression, png.BestSpeed, png.BestCompression}[c.Intn("img:level", 4)]}
+	enc.Encode(&buf, img)
 	return buf.Bytes()
 }
 
